@@ -76,6 +76,11 @@ fn history(t: &[&str]) -> String {
                 fft = FFT::<f64>::new();
                 Some("-".to_string())
             }
+            // the other public way to get an object: the Default impl (must be indistinguishable from new())
+            "D" => {
+                fft = FFT::<f64>::default();
+                Some("-".to_string())
+            }
             "U" => {
                 let n = tk.usize();
                 guarded(|| fft.update_n(n)).map(|_| "-".to_string())
@@ -116,7 +121,12 @@ fn history(t: &[&str]) -> String {
                     let fa = fft.fft(&a, n);
                     let fb = fft.fft(&b, n);
                     let prod = fa.into_iter().zip(fb).map(|(x, y)| x * y).collect::<Vec<_>>();
-                    fft.fft_inv_into(&prod, &mut res);
+                    if res.len() == prod.len() && res.iter().all(|x| *x == 0) {
+                        // an all-zero destination of full length: the allocating variant must give the same
+                        res = fft.fft_inv(&prod);
+                    } else {
+                        fft.fft_inv_into(&prod, &mut res);
+                    }
                 })
                 .map(|_| ints(&res))
             }
@@ -152,6 +162,8 @@ fn envelope<F: Float>(t: &[&str]) -> String {
     let pat: u32 = p(t[5]);
     let seed: u64 = p(t[6]);
     let samples: usize = p(t[7]);
+    // route 0: multiply; route 1: fft(a), fft(b), pointwise product, fft_inv (the property promises the same coefficients)
+    let route: u32 = if t.len() > 8 { p(t[8]) } else { 0 };
     let mut rng = Sm(seed);
     let mut gen = |len: usize, which: u32| -> Vec<i32> {
         (0..len)
@@ -185,8 +197,18 @@ fn envelope<F: Float>(t: &[&str]) -> String {
     let a = gen(la, 0);
     let b = gen(lb, 1);
     let mut fft = FFT::<F>::new();
-    let c = fft.multiply(&a, &b);
     let total = la + lb - 1;
+    let c = if route == 1 {
+        let n = total.next_power_of_two();
+        let fa = fft.fft(&a, n);
+        let fb = fft.fft(&b, n);
+        let prod = fa.into_iter().zip(fb).map(|(x, y)| x * y).collect::<Vec<_>>();
+        let mut r = fft.fft_inv(&prod);
+        r.truncate(total);
+        r
+    } else {
+        fft.multiply(&a, &b)
+    };
     if c.len() != total {
         return format!("E {} {} -1 0", total, total);
     }
